@@ -16,7 +16,7 @@ import itertools
 import z3
 
 from engine import sym
-from engine.common import DISCHARGED, REFUTED, UNKNOWN, Unit, ob
+from engine.common import DISCHARGED, REFUTED, UNKNOWN, Unit, conformance_unit, ob
 
 PID = "C03"
 
@@ -35,7 +35,7 @@ def _collect(paths, base, replay=None, need=("return",)):
         if p.outcome == "unsupported":
             out.append(ob(f"{base}/<unsupported>", UNKNOWN, reason=str(p.value)[:300]))
         for o in p.obligations:
-            d = ob(o["name"], o["status"], by="z3", kind=o.get("kind"), info=o.get("info"), solver_s=p.solver_s / max(1, len(p.obligations)))
+            d = ob(o["name"], o["status"], by=o.get("by", "z3"), kind=o.get("kind"), info=o.get("info"), solver_s=p.solver_s / max(1, len(p.obligations)))
             if o["status"] != DISCHARGED:
                 d.update(model=o.get("model"), smt2=o.get("smt2"), reason=o.get("reason"))
                 if replay:
@@ -235,7 +235,7 @@ def replay_class(kind, what):
 
 
 def shadow_units(tier):
-    us = []
+    us = [conformance_unit(PID)]
     ranks = (0, 1) if tier == "quick" else (0, 1, 2)
     for kind in GET_INDICES_KINDS:
         for br in ranks:
